@@ -136,12 +136,14 @@ def check(ctx):
     ok6 = False
     if diffs is not None and is_call_to(diffs, "numpy.abs", "numpy.absolute",
                                         "numpy.fabs", "builtins.abs"):
-        d = diffs.args[1][0]
+        from ..lib import strip_asarray
+        d = strip_asarray(diffs.args[1][0])
         if d.op == "binop" and d.args[0] == "Sub":
             a, b = d.args[1], d.args[2]
             el1 = [x for x in (a, b) if x.op == "elem" and
                    _iter_source(x) is s1]
-            sh = [x for x in (a, b) if x is shifted]
+            sh = [x for x in (a, b) if shifted is not None and
+                  x is strip_asarray(shifted)]
             ok6 = len(el1) == 1 and len(sh) == 1
     if ok6:
         ctx.ob("C05.6", apps[0], True,
@@ -154,8 +156,18 @@ def check(ctx):
         ctx.undecidable("C05.6", apps[0], f"nearest-counterpart search is "
                         f"not the recognised argmin over the whole shifted "
                         f"vector: {fmt(idx2)}")
+    def as_maxd(t: T) -> T:
+        """the threshold for a given (non-None) max_diff >= 0, which is what
+        the property quantifies over: `x if max_diff is None else max_diff`
+        and float(max_diff) are max_diff"""
+        t = tm.select(t, lambda a: (a.args[0] == "IsNot") if (
+            a.op == "cmp" and a.args[0] in ("Is", "IsNot") and
+            a.args[1] is maxd and a.args[2] is tm.NONE) else None)
+        if is_call_to(t, "builtins.float") and len(t.args[1]) == 1:
+            t = t.args[1][0]
+        return t
     for e in apps:
-        cmps = comparisons(e.live)
+        cmps = [(a, r, as_maxd(b)) for a, r, b in comparisons(e.live)]
         want = (tm.sub(diffs, idx2), "LtE", maxd) if diffs is not None \
             else None
         ok5 = want in cmps
@@ -234,7 +246,9 @@ def check(ctx):
         if a.op == "cmp" and a.args[0] in ("Gt", "Lt", "GtE", "LtE") and \
                 tm.mentions_param(a, "traj_1") and \
                 tm.mentions_param(a, "traj_2") and \
-                any(is_call_to(x, "builtins.len") for x in a.walk()):
+                any(is_call_to(x, "builtins.len") or
+                    (x.op == "attr" and x.args[1] == "num_poses")
+                    for x in a.walk()):
             snd = a
             break
     ctx.require(snd is not None, "length-ordering test not found in "
